@@ -52,6 +52,9 @@ func propC01(c *Ctx, r *Report) {
 	c.runBackendWalk(r, spirvBackend())
 	r.Clauses = append(r.Clauses, "per-compilation state (E5): every field of the reusable spirv Backend / ModuleBuilder written during Compile is re-initialised by its reset (a wrapper-function or type cache surviving into the next module makes it call or reference ids of the previous one)")
 	c.runResetScopes(r, spirvResetScopes)
+	r.Clauses = append(r.Clauses, colVecClause)
+	c.runColVec(r, "shape.colvec", inPkgs("spirv", "ir"))
+	r.floor("shape.colvec", 5)
 	r.Clauses = append(r.Clauses, orderClause)
 	c.runOperandOrder(r, "order.spirv", inPkgs("spirv"))
 	r.floor("order.spirv", orderFloors["spirv"])
